@@ -217,7 +217,14 @@ EXTRA_NOTE = {
            "bound by ~2 200 TLC-emitted programs executed by the real class; values and key sets are verdicts, dict order / error propagation "
            "/ array sharing are conformance notes.",
     "C14": "Part of the recorded plans is drawn by TLC itself (Emit_C14, plan space of MC_RunLoop on the real universe); a second batch "
-           "of histories runs on a nuclear target; the card spelling of an observable (F2 next to F2_total) is part of the model.",
+           "of histories runs on a nuclear target; the card spelling of an observable (F2 next to F2_total) is part of the model. "
+           "Session.tla is the level above one runner: several runners of different configurations (17 named coordinates: grid, masses, "
+           "scheme, NfFF, order, process, projectile, target, TMC, polarisation, scale-variation switches, sin2thetaW, IC, CKM, propagator "
+           "correction, MP) alive in ONE process, constructed and evaluated in every interleaving; TLC proves SessionIdeal / OutputsStable / "
+           "CfgFrozen, refutes the two named faulty variants (a coordinate kept at module level by the constructor; a module-level memo whose "
+           "key omits a coordinate), and writes the behaviours of the specification on the real coordinate universe; each behaviour is driven "
+           "through real runners in a fresh process and Trace_Session accepts it only if every slot digest (and the outcome of every "
+           "construction) is a function of the runner's own configuration - every configuration also runs alone in a process.",
     "C16": "The grammar of observable names (Names.tla: every well-formed and ~270 malformed names) is bound in the same check; the "
            "scale-variation switches are a lattice coordinate.",
 }
